@@ -13,6 +13,8 @@ mod camp_single;
 mod camp_conc;
 mod camp_fault;
 mod camp_origin;
+#[cfg(feature = "persist")]
+mod pworld;
 mod conc;
 mod mon_dg;
 mod mon;
